@@ -14,10 +14,10 @@ META = {
             "marked for deletion, and either complete (no writer) or being appended by the one writer whose version it "
             "reports; after freeEntry/freeEntryByKey by anybody no openForReading succeeds until some process creates the "
             "entry anew. (b) Shared pages, for every page size > 0, every object and every way of delivering it in "
-            "pieces: MemStore::copyToShm leaves in the slice chain exactly the bytes written so far, every slice but the "
-            "last full; MemStore::copyFromShm called by a reader at any moments of the writing reconstructs exactly a "
-            "prefix of the object (what was written when it last looked), the whole object once the writer is done. "
-            "(c) the method-level lock equals the C54 atomic model run solo, method by method. "
+            "pieces: MemStore::copyToShm leaves in the slice chain exactly the bytes written so far; MemStore::copyFromShm "
+            "called by a reader holding any earlier prefix reconstructs exactly what the chain holds (a prefix of the object "
+            "while it is being written, the whole object once the writer is done), for every split point. "
+            "(c) the method-level lock equals the C54 atomic model run solo, method by method (all flags, up to 4 readers). "
             "Tie: histories on one URL through the REAL squid with 3 workers (individually addressed), a shared memory "
             "cache and a rock cache_dir (disker process): GETs, forced reloads (new origin version), PURGEs, bursts of "
             "simultaneous GETs over all workers, object sizes below / across the 32 KB page size and above "
@@ -27,7 +27,11 @@ META = {
             "model of C18 whose agreement with the proxy rests on the end-to-end correspondence. Rock/IpcIoFile are "
             "exercised by the end-to-end runs only (the model treats the disk cache as a second shared store with the "
             "same anchor semantics and no partial readers). One key per history; concurrent writers on different URLs are "
-            "exercised by running histories in parallel. Trusted: Coq kernel, extraction, vlib/lab.py, checks/smp_common.py.",
+            "exercised by running histories in parallel. KNOWN FINDING C19-reload-keeps-old-rock-entry (real squid, reproduced on "
+            "every run from corpus/C19/known.jsonl): for objects cached in rock only, a forced reload fetches the new response "
+            "but the old one keeps being served (StoreEntry::mayStartSwapOut treats the old readable disk entry as its own "
+            "swap-out); rock is not modelled in Coq, so there is no _refuted theorem for it and rock-sized histories are "
+            "model-blind (oracle only). Trusted: Coq kernel, extraction, vlib/lab.py, checks/smp_common.py.",
     "technique": "Coq proof (counting invariant over all method sequences of a process population; induction over the "
                  "writer's delivery pieces and the reader's polling moments for the page chain) + end-to-end differential "
                  "correspondence against the running SMP squid + independent oracle",
@@ -139,7 +143,7 @@ def run_impl(L, scenarios):
         jobs.append((s, "u%d" % _state["n"], _state["n"]))
     with concurrent.futures.ThreadPoolExecutor(max_workers=int(os.environ.get("VERIF_C19_PAR", "6"))) as ex:
         out = list(ex.map(run_one, jobs))
-    bad = _state["sq"].log_has("assertion failed", "FATAL:")
+    bad = _state["sq"].log_has("assertion failed", "FATAL: Received", "FATAL: dying")
     if bad:
         out = [o + " squid-log:" + "+".join(bad) for o in out]
     return out
